@@ -26,6 +26,22 @@ class SqliteMixin:
             self._sql_schema = sch
         return self._sql_schema
 
+    def sqlite_keys(self):
+        """Every heap field of a modelled connection object: (key, element sort)."""
+        sch = self.sql_schema()
+        probe = DB(self, None, None, sch)
+        out = []
+        for table, cols in sch.items():
+            pk = probe.pk(table)
+            for c in cols:
+                if c != pk:
+                    out.append((f"{CONN}.{table}.{c}", z3.ArraySort(I, probe.colsort(table, c))))
+            out.append((f"{CONN}.{table}.live", z3.ArraySort(I, B)))
+            out.append((f"{CONN}.{table}.max", I))
+        for name in ("issued", "committed", "ncommits"):
+            out.append((f"{CONN}.{name}", I))
+        return out
+
     def db(self, st, conn):
         return DB(self, st, conn.t if isinstance(conn, Val) else conn, self.sql_schema())
 
